@@ -148,7 +148,7 @@ def main():
 
 
 NA = {}
-HOOK_COMMITS = ['793c3992']
+HOOK_COMMITS = ['793c3992', 'a2d00bce']
 
 if __name__ == '__main__':
     main()
